@@ -60,12 +60,18 @@ fn main() {
                     println!("from_ge|{}|{}|{}|{}", a, b, kind_str(k), de(&DynamicError::from_guard_error(GuardError::with_kind(a, b, k.clone()))));
                     let ctx = TransitionContext::new(St(a), St("to"), b);
                     println!("abort_with|{}|{}|{}|{}", a, b, kind_str(k), ao(&abort_with!(ctx, k.clone())));
+                    // the kind held in a local variable: a bare identifier as the macro's second argument
+                    let ctx = TransitionContext::new(St(a), St("to"), b);
+                    let kind_in_a_local = k.clone();
+                    println!("abort_with_var|{}|{}|{}|{}", a, b, kind_str(k), ao(&abort_with!(ctx, kind_in_a_local)));
                 }
                 let ctx = TransitionContext::new(St(a), St("to"), b);
                 println!("abort_guard_expr|{}|{}|{}|{}", a, b, c, ao(&abort_guard!(ctx, (c))));
             }
             let ctx = TransitionContext::new(St(a), St("to"), b);
             println!("abort_guard_ident|{}|{}|{}", a, b, ao(&abort_guard!(ctx, some_guard_ident)));
+            let ctx = TransitionContext::new(St(a), St("to"), b);
+            println!("abort_guard_lit|{}|{}|{}", a, b, ao(&abort_guard!(ctx, "a_string_literal")));
         }
     }
 }
